@@ -409,7 +409,13 @@ class Schema(dict, metaclass=LogicalMeta):
             raise exc.DeleteError(
                 f"{self.__name__}: Attempt to popitem in immutable schema"
             )
-        return super().popitem()
+        if not self:
+            return super().popitem()  # KeyError
+        key = next(reversed(self))
+        value = super().__getitem__(key)
+        # same protection as `del self[key]` (required / immutable fields)
+        self.__delitem__(key)
+        return key, value
 
     def pop(self, key: str, default=unprovided):
         if self.__options__.immutable:
